@@ -427,8 +427,13 @@ func compressTrace(t []string) string {
 
 // classify one read attempt: A accepted (no error anywhere), E constructor error, e error reported
 // by Error() after iterating, P panic
-func classify(z adapter.Zoo, data []byte) byte {
-	src := &source{data: data}
+func classify(z adapter.Zoo, data []byte, start int64) byte {
+	// start: where the caller left the source before handing it over (-1 = at its end); a reader that has been
+	// sniffed or read before is as legal an io.ReadSeeker as a fresh one
+	if start < 0 || start > int64(len(data)) {
+		start = int64(len(data))
+	}
+	src := &source{data: data, pos: start}
 	var rd adapter.Reader
 	open := guard(func() error {
 		var err error
@@ -474,13 +479,22 @@ func rle(classes []byte) string {
 }
 
 func init() {
-	// zoo-read-prefixes <name> <filehex> -> run-length classes for prefix lengths 0..len-1
+	// zoo-read-prefixes <name> <filehex> [start=<pos>|start=end] -> run-length classes for prefix lengths 0..len-1
 	register("zoo-read-prefixes", func(a []string) string {
 		z := zoo(a[0])
 		data := unhex(a[1])
+		var start int64
+		if len(a) > 2 && strings.HasPrefix(a[2], "start=") {
+			if a[2] == "start=end" {
+				start = -1
+			} else {
+				n, _ := strconv.Atoi(a[2][6:])
+				start = int64(n)
+			}
+		}
 		classes := make([]byte, len(data))
 		for n := 0; n < len(data); n++ {
-			classes[n] = classify(z, data[:n])
+			classes[n] = classify(z, data[:n], start)
 		}
 		return rle(classes)
 	})
